@@ -389,3 +389,8 @@ func (p *Program) InstrPos(in ssa.Instruction) string {
 	}
 	return "?"
 }
+
+// SizeOf is the size in bytes of a basic type on the analysed platform (64-bit).
+func (p *Program) SizeOf(t types.Type) int64 {
+	return types.SizesFor("gc", "amd64").Sizeof(t)
+}
